@@ -135,7 +135,9 @@ Enqueue(m, e) ==
   [m EXCEPT !.q = [p \in PIDs |->
        LET d == Deliver(m, p, e) IN
        IF d = "no" THEN m.q[p]
-       ELSE Append(m.q[p], [did |-> e.did, len |-> e.len, ip |-> e.src, port |-> e.sport, opt |-> (d = "maybe")])],
+       \* e.len = 0: a datagram the kernel will discard when a receive call meets it (wrong checksum): the socket
+       \* becomes readable, nobody ever gets it
+       ELSE Append(m.q[p], [did |-> e.did, len |-> e.len, ip |-> e.src, port |-> e.sport, opt |-> (d = "maybe" \/ e.len = 0)])],
             !.sent = @ \cup {e.did}]
 
 ObsSend(m, e) == IF e.err # "nil" THEN m ELSE Enqueue(m, e)
@@ -185,6 +187,9 @@ ObsRdDone(m, e) ==
       hits == {k \in DOMAIN Q : Q[k].did = e.did /\ \A j \in 1..(k - 1) : Q[j].opt}
   IN
   IF r.op = 0 \/ r.op # e.op THEN Fail(m, "C12/duplicate/callback")
+  \* an asynchronous read waits for a datagram: it never completes with "would block"
+  ELSE IF e.err = "wouldblock" /\ r.api \in {"AsyncRead", "AsyncReadFrom", "AsyncReadAllFrom"} THEN
+       Fail(m, "C12/spurious-completion/" \o r.api)
   ELSE IF e.err = "wouldblock" THEN
        IF Mandatory(m, p) THEN Fail(m, Cls("C12/lost/wouldblock", r.api))
        ELSE [m EXCEPT !.rd[p] = NoRead]
@@ -261,6 +266,7 @@ ApplyAll(m, es) == IF es = <<>> THEN m ELSE ApplyAll(Apply(m, Head(es)), Tail(es
    C12/not-joined-delivered          a datagram the membership table does not admit completed a read
    C12/duplicate                     a second read completed with the same datagram
    C12/duplicate/callback            a completion for a read that is not pending
+   C12/spurious-completion/<api>     an asynchronous read completed with "would block" (readiness without a datagram)
    C12/lost/wouldblock|error|never-read[/readall]   a deliverable datagram did not complete a read
    C12/buffer                        data not in the most recently designated buffer, or another buffer touched
    C12/write/no-datagram|extra-datagram|content|destination|callback|count-returned
